@@ -180,7 +180,16 @@ def st_dur(draw, decimals):
         max_days=draw(st.sampled_from([3, 60, 1000, 1000] + (
             [] if decimals else [10 ** 6, 10 ** 9]))), decimals=decimals,
         signs=draw(st.sampled_from(["any", "any", "mixed"]))))
-    if "weeks" not in kw and draw(st.sampled_from([False, False, True])):
+    k = draw(st.integers(0, 11))
+    if k == 0:
+        # purely nominal (no exact part at all)
+        return draw(G.st_nominal_kw(max_years=50, max_months=40))
+    if k == 1 and "weeks" not in kw:
+        # years and months that cancel (12 months per year), plus exact units
+        y = draw(st.sampled_from([1, -1, 2, -3]))
+        kw.update({"years": y, "months": -12 * y})
+        return kw
+    if "weeks" not in kw and k < 5:
         kw.update(draw(G.st_nominal_kw(max_years=50, max_months=40)))
     return kw
 
@@ -222,9 +231,11 @@ def st_case(draw):
     if how == "respell" and M.dkw_is_int(a):
         b = draw(respell_len(int(M.dkw_len(a)) +
                              draw(st.sampled_from([0, 0, 0, 1, -1, 60, -86400]))))
-        for k in ("years", "months"):
-            if a.get(k):
-                b[k] = a[k]
+        if draw(st.integers(0, 3)) > 0 or not (
+                a.get("years") and a.get("years", 0) * 12 + a.get("months", 0) == 0):
+            for k in ("years", "months"):
+                if a.get(k):
+                    b[k] = a[k]
         if "weeks" in b and (b.get("years") or b.get("months")):
             b["days"] = 7 * b.pop("weeks")
     elif how == "vary":
